@@ -161,6 +161,17 @@ class Driver(object):
             if site == "multicall-index":
                 results = self._multicall(batch)
                 return ("return", results[pos])
+            if site in ("multicall-whole-reply-index", "multicall-whole-reply-iter"):
+                # the server answers the WHOLE batch with one object (what JSON-RPC 2.0 prescribes for an
+                # unparsable or invalid batch, and what this library's server does for -32700)
+                self.transport.reply_text = json.dumps(reply)
+                mc = self.jsonrpclib.MultiCall(self.proxy)
+                mc.some_method(1)
+                mc.other_method(2)
+                results = mc()
+                if site.endswith("index"):
+                    return ("return", results[0])
+                return ("return", [r for r in results])
         except BaseException as ex:  # noqa
             return ("raise", ex)
 
@@ -197,6 +208,10 @@ def judge(ctx, drv, site, reply, obs):
     ctx.count("observed:%s" % site)
     if exp[0] == "unjudged":
         ctx.count("unjudged:" + exp[1])
+        return
+    if site.startswith("multicall-whole-reply") and exp[0] != "raise":
+        # a single non-error object in answer to a batch: the property says nothing about it
+        ctx.count("unjudged:whole-reply-without-error")
         return
     if site == "proxy-notify" and exp[0] == "return":
         # a notification call returns None whatever the reply carries (C04); only error replies are judged here
@@ -314,7 +329,7 @@ def run(ctx):
                     # quick tier: a third of the (large) code table per seed-shifted slice
                     if (idx + ctx.seed) % 3:
                         continue
-                for site in sites[:2] + ("proxy-notify",):
+                for site in sites[:2] + ("proxy-notify", "multicall-whole-reply-index", "multicall-whole-reply-iter"):
                     run_case(ctx, drv, site, reply)
                 ctx.sample({"site": "proxy", "reply": reply, "expected": list(map(str, expected(reply)))})
     ctx.exhaustive["directed error table x envelopes (thorough tier only)"] = not ctx.quick
@@ -333,6 +348,8 @@ def run(ctx):
         reply = rand_reply(rng)
         for site in sites[:2] + ("proxy-notify",):
             run_case(ctx, drv, site, reply)
+        if _ % 5 == 0:
+            run_case(ctx, drv, rng.choice(["multicall-whole-reply-index", "multicall-whole-reply-iter"]), reply)
 
 
 def finalize(m, tier):
